@@ -99,9 +99,11 @@ def impl_run(c):
         before_ids = [m.mid for m in f.models]
         w_before = [float(x) for x in f.model_weights]
         mu_before = [float(x) for x in f.mode_probabilities]
-        f.update(["obs"])
+        observed = bool(c.get("observed", [True] * c["steps"])[k])
+        f.update(["obs"] if observed else [])  # a step without observations carries no evidence: the probabilities stay what they were
         closed = bool(FilterFlag.ADAPTIVE_ESTIMATION_CLOSE in f.flags)
         st = {
+            "observed": observed,
             "before_ids": before_ids,
             "w_before": w_before,
             "mu_before": mu_before,
@@ -208,6 +210,8 @@ def cases(run: Run):
         out.append(
             {
                 "kind": kind, "n": n, "ydim": ydim, "pattern": pattern, "steps": steps, "models": models, "w0": w0, "regime": regime,
+                # steps without observations in between (static multiple model only): predict, then update with nothing
+                "observed": [True] + [not (kind == "smm" and rng.random() < 0.35) for _ in range(steps - 1)],
                 "thr": rng.choice([Fraction(1, 10**10), Fraction(1, 100), Fraction(1, 20), Fraction(1, 5), Fraction(2, 5)]),
                 "pct": rng.choice([Fraction(997, 1000), Fraction(9, 10), Fraction(3, 5), Fraction(4, 5)]),
                 "mix": rng.choice([Fraction(3, 2), Fraction(1), Fraction(10), Fraction(1, 2)]),
@@ -249,7 +253,7 @@ def model_lines(c, steps):
     for st in steps:
         ids0 = st["before_ids"]
         data = step_data(c, ids0, st["k"])
-        L = [likelihood(d, c["ydim"]) for d in data]
+        L = [likelihood(d, c["ydim"]) if st.get("observed", True) else 1.0 for d in data]
         nis = [d["nis"] for d in data]
         if c["kind"] == "smm":
             lines.append(f"mm.smmstep {fmt(c['thr'])} {fmt(c['pct'])} {fmt(B)} {fmt_list(st['w_before'])} {fmt_list(L)} {fmt_list(nis)}")
@@ -288,9 +292,17 @@ def oracle(run: Run, c, impl):
             if any((x != x) or x < 0 for x in mu) or abs(sum(mu) - 1) > 1e-9:
                 fails.append((f"{kind}:invalid-modes", f"step {k}: mode probabilities {mu} (sum {sum(mu)})"))
                 break
+            # the prior of the next step is the posterior mixed by this filter's own Markov matrix: mix_ratio on the diagonal, 1 elsewhere, rows normalised
+            nm = len(w)
+            if nm == len(mu) and nm > 1:
+                scale = 1.0 / (nm - 1 + float(c["mix"]))
+                want = [scale * (sum(w) - wi) + float(c["mix"]) * scale * wi for wi in w]
+                if any(abs(a_ - b_) > 1e-9 for a_, b_ in zip(mu, want)):
+                    fails.append((f"{kind}:mixing", f"step {k}: mode probabilities {mu} are not the posterior {w} mixed with mix_ratio {float(c['mix'])} (expected {want})"))
+                    break
         # Bayes' rule on the survivors: w'_i / w'_j = (w_i L_i) / (w_j L_j)
         data0 = step_data(c, st["before_ids"], k)
-        L = {i: likelihood(d, c["ydim"]) for i, d in zip(st["before_ids"], data0)}
+        L = {i: (likelihood(d, c["ydim"]) if st.get("observed", True) else 1.0) for i, d in zip(st["before_ids"], data0)}
         prior = dict(zip(st["before_ids"], st["mu_before"] if kind == "gpb1" else st["w_before"]))
         post = dict(zip(st["ids"], w))
         ev = sum(prior[i] * L[i] for i in st["before_ids"])
@@ -364,6 +376,8 @@ def run_cases(run: Run, cs):
         small = {k: v for k, v in jc.items() if k != "models"} | {"model0_step0": jc["models"][0][0]}
         run.case(c["kind"], small, nontrivial=True, branch=c["pattern"])
         run.count(f"regime:{c.get('regime', 'unit')}")
+        if not all(c.get("observed", [True])):
+            run.count("with-unobserved-steps")
         run.count(f"n={c['n']}")
         if outs is not None and i[0] == "ok":
             run.model_compared += 1
@@ -384,7 +398,7 @@ def run_cases(run: Run, cs):
                     # a model whose weight sits within rounding of a threshold may legitimately fall either way
                     if want_ids != st["ids"] or closed != st["closed"]:
                         data0 = step_data(c, st["before_ids"], st["k"])
-                        pl = [p_ * likelihood(d_, c["ydim"]) for p_, d_ in zip(st["w_before"], data0)]
+                        pl = [p_ * (likelihood(d_, c["ydim"]) if st.get("observed", True) else 1.0) for p_, d_ in zip(st["w_before"], data0)]
                         tot = sum(pl)
                         post = [x / tot for x in pl] if tot > 0 else []
                         # (the pre-prune posterior, and the posterior renormalised over any subset, may sit on a threshold)
